@@ -199,7 +199,7 @@ class Scratch:
         data = self.ctx.garbage if prior.startswith("garbage") else self.ctx.old
         with open(self.cachefile, "wb") as f:
             f.write(data)
-        t = now if prior in ("fresh", "garbage_fresh") else now - 2 * 3600
+        t = now if prior in ("fresh", "garbage_fresh") else now - self.stale_age()
         os.utime(self.cachefile, (t, t))
         self.prior_bytes = data
 
@@ -228,9 +228,15 @@ class Scratch:
         except FileNotFoundError:
             return []
 
+    def stale_age(self):
+        """'stale' stands for every age beyond cache_duration: two hours, a day and a half, more than a year,
+        chosen per scratch directory (deterministic for a given case order)"""
+        import zlib
+        return (2 * 3600, 36 * 3600, 400 * 86400)[zlib.crc32(os.path.basename(self.dir).encode()) % 3]
+
     def age_cache(self):
         if os.path.exists(self.cachefile):
-            t = time.time() - 2 * 3600
+            t = time.time() - self.stale_age()
             os.utime(self.cachefile, (t, t))
 
     def run(self, args, tracefile=None, inject=None):
